@@ -255,6 +255,17 @@ func Enumerate(fn *ssa.Function, cfg SymConfig) ([]*Path, error) {
 		fr.block = cfg.Start
 	}
 	st.frames = []*frame{fr}
+	// initial contents of the repository's read-only tables
+	if cfg.Prog != nil {
+		for _, stores := range cfg.Prog.readOnlyTables() {
+			for _, ts := range stores {
+				ifr := &frame{fn: ts.fn, vals: map[ssa.Value]*Term{}, visits: map[int]int{}}
+				addr := se.val(st, ifr, ts.addr)
+				st.mem[addr.String()] = se.val(st, ifr, ts.val)
+				st.memAddr[addr.String()] = addr
+			}
+		}
+	}
 	se.run(st)
 	return se.paths, se.err
 }
@@ -540,6 +551,34 @@ func lastField(addr *Term) types.Object {
 	return nil
 }
 
+// distinctLocalPaths: both addresses are components (fields, constant indices) of local variables: different access paths
+// are different memory (element 0 and element 1 of a local array of structs, two local composite literals).
+func distinctLocalPaths(a, b *Term) bool {
+	root := func(t *Term) (*Term, bool) {
+		for {
+			switch t.Op {
+			case "fieldaddr":
+				t = t.Args[0]
+			case "indexaddr":
+				if _, isConst := t.Args[1].IsConst(); !isConst {
+					return nil, false
+				}
+				t = t.Args[0]
+			default:
+				return t, t.Op == "alloc"
+			}
+		}
+	}
+	ra, oka := root(a)
+	rb, okb := root(b)
+	if !oka || !okb {
+		return false
+	}
+	_ = ra
+	_ = rb
+	return a.String() != b.String()
+}
+
 func (s *state) store(addr, v *Term) {
 	key := addr.String()
 	// kill entries that extend this address, and may-alias entries (same last field, other base)
@@ -553,7 +592,7 @@ func (s *state) store(addr, v *Term) {
 			delete(s.memAddr, k)
 			continue
 		}
-		if lf != nil && lastField(a) == lf {
+		if lf != nil && lastField(a) == lf && !distinctLocalPaths(a, addr) {
 			delete(s.mem, k)
 			delete(s.memAddr, k)
 		}
@@ -608,6 +647,12 @@ func (s *state) loadPresent(addr *Term) (*Term, bool) {
 func (s *state) load(addr *Term, typ types.Type) *Term {
 	if v, ok := s.loadPresent(addr); ok {
 		return v
+	}
+	// element of a slice literal built on this path
+	if addr.Op == "indexaddr" && addr.Args[0].Op == "slicelit" {
+		if n, ok := addr.Args[1].IsIntConst(); ok && n >= 0 && int(n) < len(addr.Args[0].Args) {
+			return addr.Args[0].Args[n]
+		}
 	}
 	// aggregate assembled from component stores
 	key := addr.String()
@@ -1092,6 +1137,15 @@ func (se *symExec) call(st *state, fr *frame, in *ssa.Call) bool {
 					fr.vals[in] = intConst(int64(len(s)))
 					return false
 				}
+				// a slice literal built on this path, or the nil slice
+				if args[0].Op == "slicelit" && b.Name() == "len" {
+					fr.vals[in] = intConst(int64(len(args[0].Args)))
+					return false
+				}
+				if _, isSlice := c.Args[0].Type().Underlying().(*types.Slice); isSlice && args[0].Op == "const" && args[0].Cval == nil {
+					fr.vals[in] = intConst(0)
+					return false
+				}
 			}
 			fr.vals[in] = &Term{Op: b.Name(), Args: args, Type: in.Type(), Aux: lenVersion(st, c.Args[0])}
 			return false
@@ -1356,7 +1410,17 @@ func (se *symExec) inertInstr(in ssa.Instruction, region map[*ssa.BasicBlock]boo
 			case "String", "Error":
 				return true
 			}
-			return false
+			// an interface the program implements with inert functions only (a narrow interface put in front of the logger)
+			ts := se.cfg.Prog.InvokeTargets(x)
+			if len(ts) == 0 {
+				return false
+			}
+			for _, t := range ts {
+				if !se.isInert(t) {
+					return false
+				}
+			}
+			return true
 		}
 		if b, ok := x.Call.Value.(*ssa.Builtin); ok {
 			switch b.Name() {
